@@ -1,23 +1,24 @@
 #!/bin/bash
-# tools/eval_seed.sh <ID> <n> [tag]: confirm a seeded change (suite + demo both ways), then run the property's
-# quick check against it in a scratch copy (mutcheck), and record everything in /verif/seeded/<ID>-<n>/.
+# tools/eval_seed.sh <ID> <n> [tag]: store a delivered seeded change under /verif/seeded/<ID>-<n>/, free the agent's
+# worktree, and run the property's quick check against the change in a scratch copy (mutcheck).
+# Confirmation of the suite/demo (tools/confirm_seed.sh) is a separate, later step on a shared worktree.
 set -u
 id="$1"; n="$2"; tag="${3:-seed}"
-/verif/tools/confirm_seed.sh "$id" "$n" > /tmp/eval-$id-$n.confirm 2>&1
-dst="/verif/seeded/$id-$n"
-out=$(/verif/tools/mutcheck.sh "$tag" "$id" "$dst/patch.diff" 2>&1); rc=$?
-echo "$out" > "$dst/check.log"
+out="/tmp/seed-$id-$n-out"; dst="/verif/seeded/$id-$n"
+mkdir -p "$dst"
+if [ -d "$out" ]; then cp "$out/patch.diff" "$out/demo.diff" "$out/meta.json" "$dst/" || exit 2; fi
+git -C /repo worktree remove --force "/tmp/seed-$id-$n" 2>/dev/null; rm -rf "/tmp/seed-$id-$n"; git -C /repo worktree prune
+res=$(/verif/tools/mutcheck.sh "$tag" "$id" "$dst/patch.diff" 2>&1); rc=$?
+echo "$res" > "$dst/check.log"
 python3 - "$dst" "$rc" <<'PY'
 import json,sys
 dst,rc=sys.argv[1],int(sys.argv[2])
 m=json.load(open(f"{dst}/meta.json"))
 log=open(f"{dst}/check.log").read()
-m["checks_run"]=f"tools/confirm_seed.sh + tools/mutcheck.sh <tag> {m.get('property')} {dst}/patch.diff (quick tier)"
-m["detected_by_quick_check"]= (rc==1)
+m["checks_run"]=f"tools/mutcheck.sh <tag> {m.get('property')} {dst}/patch.diff (quick tier, scratch copy of /repo HEAD + patch)"
+m["detected_by_quick_check"]=(rc==1)
 m["check_exit_code"]=rc
 m["check_output"]=[l[:300] for l in log.splitlines() if l.startswith(("VIOLATION","violation","runs=","OK","KNOWN","MUTANT","patch"))][:6]
 json.dump(m,open(f"{dst}/meta.json","w"),indent=1)
-print(dst, "rc=",rc, m["check_output"][-2:] if m["check_output"] else log[-300:])
+print(dst,"rc=",rc,(m["check_output"][-2:] if m["check_output"] else log[-300:]))
 PY
-# free the disk: the worktree (with its multi-GB target dir) is no longer needed
-git -C /repo worktree remove --force "/tmp/seed-$id-$n" 2>/dev/null; rm -rf "/tmp/seed-$id-$n"; git -C /repo worktree prune
